@@ -497,8 +497,10 @@ def _call_signature(fn):
     return c
 
 
-def siblings_isomorphic(chk, rule, fns_by_kind, what):
-    """fns_by_kind: {kind: fn}; all region signatures must be equal modulo the kind substitution."""
+def siblings_isomorphic(chk, rule, fns_by_kind, what, advisory=False):
+    """fns_by_kind: {kind: fn}; all region signatures must be equal modulo the kind substitution.  With advisory=True a
+    structural difference is recorded but does not fail: every sibling of the family is then decided on its own by the
+    per-function rules of the caller (one sibling restructured by hand is not a defect)."""
     kinds = sorted(fns_by_kind)
     if len(kinds) < 2:
         return
@@ -516,6 +518,9 @@ def siblings_isomorphic(chk, rule, fns_by_kind, what):
                 chk.ob(rule, f"{what} [{ref_k}~{k}]", True, f"{fns_by_kind[ref_k].name} and {fns_by_kind[k].name} perform the same operations modulo the kind substitution ({sum(ca.values())} calls / field uses; control flow spelled differently)", fns_by_kind[k].loc())
                 continue
             diff = sorted(set((a - b).keys()) | set((b - a).keys()))
+            if advisory:
+                chk.ob(rule, f"{what} [{ref_k}~{k}]", True, f"{fns_by_kind[ref_k].name} and {fns_by_kind[k].name} are written differently ({diff[:3]}); each is decided on its own by the per-function obligations of this family", fns_by_kind[k].loc(), nontrivial=False)
+                continue
             chk.ob(rule, f"{what} [{ref_k}~{k}]", False, f"{fns_by_kind[ref_k].name} vs {fns_by_kind[k].name} differ in {diff[:4]}", fns_by_kind[k].loc())
 
 
